@@ -1,6 +1,7 @@
 from vlib import Check
 
 TRUSTED = [
+    "tie (T), added: the statement lists of the functions this property's model was transcribed from are regenerated from /repo on every run (Gen/Stmts.lean) and pinned against the committed transcription source by the kernel-decided theorem source_as_modelled; the step from statements to model is by reading and is what the differential runs check",
     "Lean 4.33.0 kernel; axioms of every theorem audited",
     "hand-written model Model/Box.lean of msg/msgbox.go (critical sections of storeOrForward, Send, mark, sweep; whole calls composed sequentially), tied step-exactly incl. a size snapshot after every call by the harness component box (real msg.Box, injected ticker as virtual epoch clock)",
     "extractor 'boxconsts': limitPerSender and the comparison operators the model hard-codes, regenerated from the Go AST",
@@ -14,7 +15,7 @@ ASSUME = [
 
 def main():
     c = Check("C15")
-    c.prove(gen=["boxconsts"])
+    c.prove(gen=["boxconsts", "stmts"])
     c.correspond("box")
     return c.finish(
         rule="histories from a grammar over a virtual epoch clock: arrivals from 3 senders on 8 topics, a well-behaved sender kept within the limits by the harness, sends, ticks, bursts of 95..110 messages across the "
